@@ -163,6 +163,11 @@ class Doc(object):
                     self.sub(pn, 'color', self.floats([r.choice([0.0, 1.0, 0.5, 0.25]) for _ in range(n)]))
                 if p == 'transparent' and r.random() < 0.5:
                     pn.set('opaque', r.choice(['A_ONE', 'RGB_ZERO']))
+            if samplers and r.random() < 0.3:
+                # a bump map, where exporters put it: in an <extra> of the technique
+                ex = self.sub(tec, 'extra')
+                t = self.sub(ex, 'technique', profile='FCOLLADA')
+                self.sub(self.sub(t, 'bump'), 'texture', texture=r.choice(samplers), texcoord='BUMPUV')
             if r.random() < 0.3:
                 ex = self.sub(prof, 'extra')
                 t = self.sub(ex, 'technique', profile='GOOGLEEARTH')
